@@ -204,8 +204,8 @@ func genProgram(c *core.Ctx, i int, ending string) map[string]string {
 
 // Run is the C03 check.
 func Run(c *core.Ctx) int {
-	nprog := c.N(14, 200)
-	ntapes := c.N(6, 24)
+	nprog := c.N(14, 100)
+	ntapes := c.N(6, 16)
 	var endNames []string
 	for k := range endings {
 		endNames = append(endNames, k)
@@ -347,8 +347,8 @@ func Run(c *core.Ctx) int {
 		}
 	})
 	// ---- layer 1: small configurations against the reference interpreter of channel semantics
-	nconf := c.N(24, 800)
-	ctapes := c.N(6, 16)
+	nconf := c.N(24, 400)
+	ctapes := c.N(6, 12)
 	confExecs, tuplesSeen, tuplesAllowed, modelStates, confs := 0, 0, 0, 0, 0
 	c.Parallel(nconf, func(i int) {
 		r := c.Rand(fmt.Sprint("conf", i))
